@@ -55,6 +55,18 @@ def correspondence(ctx):
             ctx.traces += len(pts)
 
 
+forms_all = False
+OTHER_FIXED = None
+_other = []
+
+
+def other_tzfile():
+    from dateutil import tz
+    if not _other:
+        _other.append(tz.tzfile(os.path.join(Z.ROOT, "America/New_York")))
+    return _other[0]
+
+
 def classify(ctx, kind, name, z, w, pre, gap_width, isolated, required, extra=None, defer=None, why_not_isolated=None, us=0):
     """the PEP 495 statements for one wall second, on the implementation"""
     from dateutil import tz
@@ -70,6 +82,30 @@ def classify(ctx, kind, name, z, w, pre, gap_width, isolated, required, extra=No
         ex0, ex1 = tz.datetime_exists(d0), tz.datetime_exists(d1)
         am0, am1 = tz.datetime_ambiguous(d0), tz.datetime_ambiguous(d1)
         o0, o1 = d0.utcoffset(), d1.utcoffset()
+        # the full argument space of the public helpers: naive + tz; aware (other zone / UTC / same zone) + explicit tz
+        # (the explicit tz wins and the datetime's own zone is ignored); every form must answer like the aware-in-zone form
+        if (w + us) % 7 == 0 or forms_all:
+            for f, base_dt, ex_b, am_b in ((0, d0, ex0, am0), (1, d1, ex1, am1)):
+                naive = base_dt.replace(tzinfo=None)
+                for label, arg in (("naive,tz", naive), ("UTC-aware,tz", naive.replace(tzinfo=tz.UTC)),
+                                   ("offset-aware,tz", naive.replace(tzinfo=OTHER_FIXED)),
+                                   ("tzfile-aware,tz", naive.replace(tzinfo=other_tzfile())),
+                                   ("same-zone-aware,tz", base_dt)):
+                    e = tz.datetime_exists(arg, z)
+                    a = tz.datetime_ambiguous(arg, z)
+                    ctx.count("helper_form:" + label)
+                    if e != ex_b or a != am_b:
+                        probs.append("datetime_exists/ambiguous(%s, fold=%d) = %s/%s but the datetime attached to the zone gives %s/%s"
+                                     % (label, f, e, a, ex_b, am_b))
+            nv = d0.replace(tzinfo=None)
+            if tz.resolve_imaginary(nv) is not nv:
+                probs.append("resolve_imaginary changed a naive datetime")
+            for fn in (tz.datetime_exists, tz.datetime_ambiguous):
+                try:
+                    fn(nv)
+                    probs.append("%s(naive) without tz did not raise ValueError" % fn.__name__)
+                except ValueError:
+                    pass
         if n > 2:
             probs.append("%d UTC instants read %d" % (n, w))
         if ex0 != (n >= 1) or ex1 != (n >= 1):
@@ -146,6 +182,8 @@ def gap_context(seq, w, std_tail):
 
 def oracle(ctx):
     from dateutil import tz
+    global OTHER_FIXED
+    OTHER_FIXED = tz.tzoffset("X", 19800)
     todo = []
     for name, data in P4.tzfile_streams(ctx):
         z, line = Z.impl_load(data)
@@ -308,9 +346,11 @@ def replay(ctx, payload):
         z = tz.tzstr(c["zone"][6:]); pre = None
     else:
         print("replay supports tzfile / tzstr cases"); return False
-    print("zone=%s wall=%d pre-images=%s impl(amb;fold0;fold1)=%s" % (c["zone"], c["w"], pre, Z.impl_wall_line(z, c["w"])))
+    us = c.get("us", 0)
+    print("zone=%s wall=%d us=%d pre-images=%s impl(amb;fold0;fold1)=%s" % (c["zone"], c["w"], us, pre, Z.impl_wall_line(z, c["w"], us=us)))
     if pre is None:
         return False
+<<<<<<< HEAD
     d0 = Z.wall_dt(z, c["w"], 0)
     return tz.datetime_exists(d0) == (len(pre) >= 1) and tz.datetime_ambiguous(d0) == (len(pre) == 2)
 
@@ -329,3 +369,13 @@ TRUSTED = TRUSTED + [
     "translator tie: harness/translate_dt.py (DtPy) re-translates tzfile._find_last_transition/_get_ttinfo/_find_ttinfo/_resolve_ambiguous_time/_offset_before/is_ambiguous/fromutc/utcoffset/dst/tzname, _datetime_to_timestamp and tzrangebase._dst_base_offset/_naive_isdst/is_ambiguous/_isdst/utcoffset/dst/tzname/fromutc from /repo on every run into Generated/TzKernels.lean; Proofs/TzGenEq*.lean prove each equal to the function of Model/Zones.lean (for datetimes with microseconds; tzfile: on every coherent zone, i.e. build of a WF table with a transition), Properties/TzGen.lean lists the obligations gen_eq_model_* and the `_gen` twins in the audit; a behaviour-changing edit breaks the translation or a named obligation",
     "named primitives of the DtPy translator (Model/DtPy.lean), trusted with their documented meaning and exercised by the tzgen.* validation against the implementation's methods on every run: a datetime as (microseconds of the naive reading, fold, tzinfo-is-self), datetime +/- timedelta resets fold, timedelta.total_seconds() as an exact number (float rounding not modelled), int() truncation, bisect.bisect_right as its loop, list indexing with IndexError, attribute of None as AttributeError, unpacking None as TypeError, OverflowError of datetime arithmetic not modelled, `dt is None` tests on datetime parameters statically false; in the `_tzinfo` base-class functions `dt.utcoffset()`/`dt.dst()` are the zone's abstract offset functions applied to (wall seconds, fold) and `self.is_ambiguous(dt)` is dynamic dispatch (DtPy.dispatchAmbiguous: a subclass override if the GenericZone has one, else the translated base method)",
 ]
+=======
+    global forms_all, OTHER_FIXED
+    forms_all = True
+    OTHER_FIXED = tz.tzoffset("X", 19800)
+    before = len(ctx.violations)
+    classify(ctx, "tzfile", c["zone"], z, c["w"], pre, None, True, True, us=us)
+    for v in ctx.violations[before:]:
+        print("still failing:", v["what"])
+    return len(ctx.violations) == before
+>>>>>>> wt-zones
